@@ -21,7 +21,7 @@ INC := -I$(REPO)/acquire-core-libs/src/acquire-core-logger \
        -I$(REPO)/acquire-video-runtime/src \
        -I$(REPO)/acquire-driver-common/src \
        -I$(REPO)/acquire-driver-common/src/simcams/3rdParty/pcg-c-basic-0.9 \
-       -I$(V)/engines -I$(V)/mock -I$(V)/oracles
+       -I$(V)/engines -I$(V)/engines/vsched -I$(V)/mock -I$(V)/oracles -I$(V)/harness
 
 ifeq ($(FLAVOUR),plain)
   CC := gcc
